@@ -142,8 +142,24 @@ def main(inp, outp):
                 res["violations"].append({"key": key, "what": what, "data": data})
 
     primes = job.get("primes")
+    prev = None
     for v in job.get("vectors", []):
         q, exp, hyp = expected_forms(v, primes)
+        # history: the derived quantities are read, the SAME object is then given another state, and they are read again
+        if prev is not None:
+            pq, pexp = prev
+            sv = StateVector(pexp["cartesian"], DATE, "cartesian", "EME2000")
+            _ = (sv.infos.v, sv.infos.energy, sv.infos.rp, sv.infos.r)
+            sv[:] = exp["cartesian"]
+            inf2 = sv.infos
+            okh = abs(inf2.r - q["r"] * L0) <= 1e-9 * q["r"] * L0 and abs(inf2.energy - q["energy"] * V0 ** 2) <= 1e-9 * abs(q["energy"]) * V0 ** 2 \
+                and abs(inf2.rp - q["rp"] * L0) <= 1e-9 * abs(q["rp"]) * L0 and abs(inf2.v - math.sqrt(q["v2"]) * V0) <= 1e-9 * math.sqrt(q["v2"]) * V0
+            cp = sv.copy(form="keplerian")
+            okc = abs(cp.infos.rp - q["rp"] * L0) <= 1e-9 * abs(q["rp"]) * L0
+            clause("derived quantities describe the CURRENT state of an object (also after it was changed in place, and on its copies)", okh and okc,
+                   "infos/stale", f"after in-place change: r={inf2.r} (expected {q['r'] * L0}), energy={inf2.energy} (expected {q['energy'] * V0 ** 2}), rp={inf2.rp}",
+                   {"previous": pexp["cartesian"], "current": exp["cartesian"]})
+        prev = (q, exp)
         data = {"ecc": v["ecc"], "h": v["hh"], "inc": v["inc"], "node": v["node"], "peri": v["peri"], "nu": v["nu"],
                 "units": {"L0": L0, "mu": MU}, "how": "StateVector(expected elements of the source form, date, source, EME2000).copy(form=target)"}
         res["traces"] += 1
